@@ -11,7 +11,7 @@ RULE = ("SCTP: recorded schedules over two REAL endpoints in which a quarter of 
 
 def oracle_alive(case, run):
     """No exception escapes, and afterwards the transport still processes valid traffic normally."""
-    r = S.oracle_no_crash(case, run)
+    r = S.oracle_no_crash(case, run) or S.oracle_work(case, run)
     if r:
         return r
     if any(op[0] == "inject" and op[3] for op in case["ops"]):
